@@ -13,7 +13,7 @@ class SPEC:
             "an oversize template (20000 fields) followed by data for it, set id different from the records' template id, ill-typed values "
             "(IPv6/odd-length address in an IPv4 element, odd-length address in an IPv6 element, MAC that is not 6 bytes, fixed-length "
             "octet array of the wrong length) - followed by further valid sends, all of which are parsed by the independent decoder. "
-            "Write outcomes (`exp failnext err|refused|short<k>`: the next Write on the connection returns an error / ECONNREFUSED as a "
+            "Write outcomes (`exp failnext err|errfull|refused|short<k>`: the next Write on the connection returns an error (with count 0, or with the full count as pion/dtls does) / ECONNREFUSED as a "
             "connected UDP socket reports it / k bytes and no error): (i) before the send of a NEW template, followed by data for that "
             "template - which must be refused: a template counts as sent only if its SendSet reported success -, by a re-send of the "
             "template that succeeds and by data that is then accepted, sometimes with a refused send (outcome stays pending), `exp tids` "
